@@ -23,7 +23,7 @@ func (Prop) ID() string     { return "C20" }
 func (Prop) Level() string  { return "exploration" }
 func (Prop) QuickRuns() int { return 2500 }
 func (Prop) Rule() string {
-	return "each run = one history of 1-30 container operations (add new / replacing, remove present / absent, get, Map()+mutate the copy, All() fully / with early break, collect-copy then mutate the original, MarshalCedar, JSON round trip replacing the live set, UnmarshalJSON of another set into the live non-empty set, Cedar-text round trip replacing the live set, loading a generated document with a file name) over 6 ids and a pool of 9 policies that a fixed panel of 6 requests tells apart, under tape-chosen map iteration orders; after EVERY step the set is compared with a plain map model (contents, return values, authorization on the panel, emission order). In addition all 4680 histories of length <= 4 over a reduced alphabet of 8 operations are enumerated in every check. Non-trivial iff the history contains >= 3 mutating operations and at least one round trip or load; distinct = distinct hash of the decoded operation sequence."
+	return "each run = one history of 1-30 container operations (add new / replacing, remove present / absent, get, Map()+mutate the copy, All() fully / with early break, collect-copy then mutate the original, MarshalCedar, JSON round trip replacing the live set, UnmarshalJSON of another set into the live non-empty set, Cedar-text round trip replacing the live set, loading a generated document with a file name) over 9 ids (incl. ids that need JSON escaping) and a pool of 9 policies that a fixed panel of 6 requests tells apart, under tape-chosen map iteration orders; after EVERY step the set is compared with a plain map model (contents, return values, authorization on the panel, emission order). In addition all 4680 histories of length <= 4 over a reduced alphabet of 8 operations are enumerated in every check. Non-trivial iff the history contains >= 3 mutating operations and at least one round trip or load; distinct = distinct hash of the decoded operation sequence."
 }
 func (Prop) Assumptions() []string {
 	return []string{
@@ -43,7 +43,10 @@ func (Prop) Refine(v *core.Violation, t, s []uint32, exec func(t, s []uint32) (*
 // ---------------------------------------------------------------------------------
 // fixed universe
 
-var ids = []cedar.PolicyID{"policy0", "policy1", "policy10", "policy2", "a", "Z"}
+// the id universe: ids that sort differently as text and as numbers, and ids that need
+// escaping in JSON (control characters, DEL, quotes, non-printable astral runes) - all valid
+// Unicode, so a JSON round trip must preserve them
+var ids = []cedar.PolicyID{"policy0", "policy1", "policy10", "policy2", "a", "Z", "ctl\x1f\a", "q\"uo\\te\x7f é日本", "\U000E0001tag\u2028"}
 
 var poolText = []string{
 	`permit (principal == User::"a", action, resource);`,
